@@ -70,6 +70,7 @@ type Clause struct {
 	File  string
 	Line  int
 	Props []string // optional per-clause property tags, e.g. {C07}
+	Assumed bool   // `ensures [label] assumed <expr>`: used at call sites, NOT checked against the body (listed in evidence)
 }
 
 type LoopSpec struct {
@@ -886,11 +887,16 @@ func (db *ContractDB) ParseFile(path string, pkgPath string) error {
 			}
 			label, rest := splitLabel(d.text)
 			props, rest := splitProps(rest)
+			assumed := false
+			if d.kw == "ensures" && strings.HasPrefix(rest, "assumed ") {
+				assumed = true
+				rest = strings.TrimSpace(strings.TrimPrefix(rest, "assumed "))
+			}
 			e, err := parseExprString(rest)
 			if err != nil {
 				return fail(d, err)
 			}
-			c := Clause{Label: label, E: e, Src: rest, File: path, Line: d.line, Props: props}
+			c := Clause{Label: label, E: e, Src: rest, File: path, Line: d.line, Props: props, Assumed: assumed}
 			switch d.kw {
 			case "requires":
 				cur.Requires = append(cur.Requires, c)
